@@ -117,10 +117,17 @@ static bool read_op(std::istringstream& in, Operand_& out) {
   return !in.fail();
 }
 
+// keeps the message an emitter reports through the CodeHolder's error handler ("<error>: <instruction> ; <comment>" for a refused instruction)
+struct CaptureErrors : public ErrorHandler {
+  std::string last;
+  void handle_error(Error, const char* message, BaseEmitter*) override { last = message ? message : ""; }
+};
+
 struct Session {
   Environment env;
   CodeHolder code;
   StringLogger logger;
+  CaptureErrors errors;
   x86::Assembler xa;
   a64::Assembler aa;
   BaseAssembler* as = nullptr;
@@ -134,6 +141,7 @@ struct Session {
     env = Environment(a);
     code.init(env);
     code.set_logger(&logger);
+    code.set_error_handler(&errors);
     if (a == Arch::kAArch64) { code.attach(&aa); as = &aa; } else { code.attach(&xa); as = &xa; }
     as->add_diagnostic_options(DiagnosticOptions::kValidateAssembler);   // only well-formed instruction forms are emitted
     labels.clear();
@@ -173,6 +181,8 @@ struct CompilerSession {
     regs.push_back(cc.new_gp16());          // %4  gpw
     regs.push_back(cc.new_zmm("z"));        // z   zmm
     regs.push_back(cc.new_gp8("b8"));       // b8  gpb
+    regs.push_back(cc.new_gp64("tmp_1"));   // tmp_1 gpq
+    regs.push_back(cc.new_xmm("v.Lo2"));    // v.Lo2 xmm
     live = true;
   }
 };
@@ -284,8 +294,63 @@ int main() {
       Error e = Formatter::format_operand(sb, FormatFlags(ff), nullptr, Arch(arch), op);
       printf("O %s%s\n", e == Error::kOk ? "" : "<error>", sb.data());
     }
-    else if (cmd == "X" || cmd == "E") {
+    else if (cmd == "ED") {
+      // ED arch ff indent kind ... : the non-instruction lines an Assembler logs. kinds: A mode n (align), B hex (embed), T typesize repeat hex
+      // (embed_data_array), L labelidx size (embed_label), D labelidx baseidx size (embed_label_delta), C text (comment)
+      uint32_t arch, ff, ind; std::string kind; in >> arch >> ff >> ind >> kind;
+      if (!S.live || S.arch != Arch(arch) || S.code.text_section()->buffer_size() > (1u << 20)) S.start(Arch(arch));
+      S.logger.set_flags(FormatFlags(ff));
+      S.logger.set_indentation(FormatIndentationGroup::kCode, ind);
+      S.logger.clear();
+      size_t before = S.as->offset();
+      Error e = Error::kOk;
+      auto unhex = [](const std::string& hx) { std::vector<uint8_t> d; for (size_t i = 0; i + 1 < hx.size(); i += 2) d.push_back(uint8_t(strtoul(hx.substr(i, 2).c_str(), nullptr, 16))); return d; };
+      bool bad = false;
+      if (kind == "A") { uint32_t mode, n; in >> mode >> n; e = S.as->align(AlignMode(mode), n); }
+      else if (kind == "B") { std::string hx; in >> hx; auto d = unhex(hx); e = S.as->embed(d.data(), d.size()); }
+      else if (kind == "T") {
+        uint32_t ts, rep; std::string hx; in >> ts >> rep >> hx; auto d = unhex(hx);
+        TypeId tid = ts == 1 ? TypeId::kUInt8 : ts == 2 ? TypeId::kUInt16 : ts == 4 ? TypeId::kUInt32 : ts == 8 ? TypeId::kUInt64 : TypeId::kUInt8x16;
+        e = S.as->embed_data_array(tid, d.data(), d.size() / ts, rep);
+      }
+      else if (kind == "L") { uint32_t li, sz; in >> li >> sz; if (li >= S.labels.size()) bad = true; else e = S.as->embed_label(S.labels[li], sz); }
+      else if (kind == "D") { uint32_t li, bi, sz; in >> li >> bi >> sz; if (li >= S.labels.size() || bi >= S.labels.size()) bad = true; else e = S.as->embed_label_delta(S.labels[li], S.labels[bi], sz); }
+      else if (kind == "C") { std::string txt; in >> txt; e = S.as->comment(txt.c_str(), txt.size()); }
+      else bad = true;
+      S.as->reset_state();
+      S.logger.reset_indentation(FormatIndentationGroup::kCode);
+      if (bad) { printf("ED <bad-command>\n"); continue; }
+      size_t after = S.as->offset();
+      std::string bytes = (after > before) ? hex(S.code.text_section()->data() + before, after - before) : std::string("-");
+      std::string lg(S.logger.data(), S.logger.data_size());
+      for (char& c : lg) if (c == '\n') c = '$';
+      printf("ED %u %s %zu %zu %s\n", unsigned(e), bytes.c_str(), before, after, lg.c_str());
+    }
+    else if (cmd == "EB") {
+      // EB indent pad1 pad2 ff comment : bind a fresh label of the x86 session with the logger options set; answers the label id and the log
+      uint32_t ind, p1, p2, ff; std::string comment;
+      in >> ind >> p1 >> p2 >> ff >> comment;
+      if (!S.live || S.arch != Arch::kX64) S.start(Arch::kX64);
+      S.logger.set_flags(FormatFlags(ff));
+      S.logger.set_indentation(FormatIndentationGroup::kLabel, ind);
+      S.logger.set_padding(FormatPaddingGroup::kRegularLine, p1);
+      S.logger.set_padding(FormatPaddingGroup::kMachineCode, p2);
+      S.logger.clear();
+      Label l = S.as->new_label();
+      if (comment != "-") S.as->set_inline_comment(comment.c_str());
+      Error e = S.as->bind(l);
+      S.as->reset_state();
+      std::string lg(S.logger.data(), S.logger.data_size());
+      for (char& c : lg) if (c == '\n') c = '$';
+      S.logger.reset_indentation(FormatIndentationGroup::kLabel);
+      S.logger.reset_padding(FormatPaddingGroup::kRegularLine);
+      S.logger.reset_padding(FormatPaddingGroup::kMachineCode);
+      printf("EB %u %u %s\n", unsigned(e), unsigned(l.id()), lg.c_str());
+    }
+    else if (cmd == "X" || cmd == "E" || cmd == "EO") {
       uint32_t arch, ff, id, opts; std::string mnem, comment;
+      uint32_t lo_ind = 0, lo_p1 = 0, lo_p2 = 0;
+      if (cmd == "EO") { in >> lo_ind >> lo_p1 >> lo_p2; cmd = "E"; }
       in >> arch >> ff >> id >> mnem >> opts;
       Operand_ ex; read_op(in, ex);
       if (cmd == "E") in >> comment;
@@ -305,7 +370,11 @@ int main() {
       else {
         if (!S.live || S.arch != Arch(arch) || S.code.text_section()->buffer_size() > (1u << 20)) S.start(Arch(arch));
         S.logger.set_flags(FormatFlags(ff));
+        S.logger.set_indentation(FormatIndentationGroup::kCode, lo_ind);
+        S.logger.set_padding(FormatPaddingGroup::kRegularLine, lo_p1);
+        S.logger.set_padding(FormatPaddingGroup::kMachineCode, lo_p2);
         S.logger.clear();
+        S.errors.last.clear();
         // label operands address the session's labels by index
         size_t before = S.as->offset();
         S.as->set_inst_options(InstOptions(opts));
@@ -318,7 +387,12 @@ int main() {
         std::string bytes = (after > before) ? hex(S.code.text_section()->data() + before, after - before) : std::string("-");
         std::string lg(S.logger.data(), S.logger.data_size());
         for (char& c : lg) if (c == '\n') c = '$';
-        printf("E %u %s %s\n", unsigned(e), bytes.c_str(), lg.c_str());
+        if (e != Error::kOk) {
+          std::string msg = S.errors.last;
+          for (char& c : msg) if (c == '\n') c = '$';
+          printf("E %u %s %s ## %s\n", unsigned(e), bytes.c_str(), lg.c_str(), msg.c_str());
+        }
+        else printf("E %u %s %s\n", unsigned(e), bytes.c_str(), lg.c_str());
       }
     }
     else if (cmd == "Y") {
@@ -358,7 +432,28 @@ int main() {
         Operand_ ext[3] = { ops[3], ops[4], ops[5] };
         e = b._emit(id, ops[0], ops[1], ops[2], ext);
       }
-      BaseNode* node = b.last_node();
+      else if (kind == "EL" || kind == "EX") {
+        // embedded label / label delta nodes: EL id size, EX id base size (labels are created up to the larger id)
+        uint32_t id, base = 0, size; in >> id; if (kind == "EX") in >> base; in >> size;
+        std::vector<Label> ls; for (uint32_t i = 0; i <= (id > base ? id : base) && i < 64; i++) ls.push_back(b.new_label());
+        if (id >= ls.size() || base >= ls.size()) { printf("Z <bad-command>\n"); continue; }
+        e = kind == "EL" ? b.embed_label(ls[id], size) : b.embed_label_delta(ls[id], ls[base], size);
+      }
+      BaseNode* extra_node = nullptr;
+      if (kind == "CP") {
+        // constant pool node with n 8-byte and m 16-byte constants
+        uint32_t n, m2; in >> n >> m2;
+        ConstPoolNode* cp = nullptr; e = b.new_const_pool_node(Out<ConstPoolNode*>(cp));
+        for (uint32_t i = 0; i < n && e == Error::kOk && cp; i++) { uint64_t v = 0x1111111111111111ull * (i + 1); size_t off; e = cp->add(&v, 8, Out<size_t>(off)); }
+        for (uint32_t i = 0; i < m2 && e == Error::kOk && cp; i++) { uint64_t v[2] = { i + 1000u, i }; size_t off; e = cp->add(v, 16, Out<size_t>(off)); }
+        extra_node = cp;
+      }
+      else if (kind == "SN") {
+        uint32_t fe; in >> fe;
+        SentinelNode* sn = nullptr; e = b.new_node_t<SentinelNode>(Out<SentinelNode*>(sn), fe ? SentinelType::kFuncEnd : SentinelType::kUnknown);
+        extra_node = sn;
+      }
+      BaseNode* node = extra_node ? extra_node : b.last_node();
       if (e != Error::kOk || !node) { printf("Z <error %u>\n", unsigned(e)); continue; }
       if (inl != "-") { keep = inl; node->set_inline_comment(keep.c_str()); }
       if (pos) node->set_position(NodePosition(pos));
@@ -416,6 +511,87 @@ int main() {
       Error e = Formatter::format_instruction(sb, FormatFlags(ff), &CS.cc, Arch::kX64, inst, Span<const Operand_>(ops, 6));
       printf("K %s%s\n", e == Error::kOk ? "" : "<error>", sb.data());
     }
+    else if (cmd == "KA") {
+      // KA ff diag k (id mnem opts extra n ops...)*k : a whole function through x86::Compiler + register allocator + Assembler with a
+      // StringLogger(ff) and DiagnosticOptions diag (kRAAnnotate 0x80, kRADebugLiveness 0x200); answers error, code bytes, log
+      uint32_t ff, diag, k; in >> ff >> diag >> k;
+      JitRuntime rt;
+      CodeHolder code; code.init(Environment(Arch::kX64));
+      StringLogger lg; lg.set_flags(FormatFlags(ff));
+      code.set_logger(&lg);
+      x86::Compiler cc(&code);
+      cc.add_diagnostic_options(DiagnosticOptions(diag));
+      FuncNode* fn = cc.add_func(FuncSignature::build<int, int, int>(CallConvId::kX64SystemV));
+      x86::Gp a = cc.new_gp32("a"), b = cc.new_gp32("b"), u2 = cc.new_gp64(), p = cc.new_gp64("p");
+      x86::Vec u4 = cc.new_xmm(), x = cc.new_xmm("x");
+      (void)u2; (void)p; (void)u4; (void)x;
+      Label xl2 = cc.new_label(), xl3 = cc.new_label();     // ids 2 and 3: targets of conditional jumps ("0 bind 0 N 1 L <id>" binds one)
+      bool bad = !fn;
+      if (!bad) { fn->set_arg(0, a); fn->set_arg(1, b); }
+      Error e = Error::kOk;
+      for (uint32_t j = 0; j < k && !bad; j++) {
+        uint32_t id, opts, n; std::string mnem; in >> id >> mnem >> opts;
+        Operand_ ex; read_op(in, ex);
+        in >> n; Operand_ ops[6]; for (auto& o : ops) o = Operand();
+        if (n > 6) { bad = true; break; }
+        for (uint32_t i = 0; i < n && !bad; i++) if (!read_op(in, ops[i])) bad = true;
+        if (bad) break;
+        if (mnem == "bind") {
+          Error e1 = cc.bind(ops[0].id() == xl2.id() ? xl2 : xl3);
+          if (e1 != Error::kOk && e == Error::kOk) e = e1;
+          continue;
+        }
+        cc.set_inst_options(InstOptions(opts));
+        Operand_ ext[3] = { ops[3], ops[4], ops[5] };
+        Error e1 = cc._emit(id, ops[0], ops[1], ops[2], ext);
+        if (e1 != Error::kOk && e == Error::kOk) e = e1;
+      }
+      if (bad) { printf("KA <bad-command>\n"); continue; }
+      cc.ret(a);
+      cc.end_func();
+      Error e2 = cc.finalize();
+      if (e == Error::kOk) e = e2;
+      std::string bytes = code.text_section()->buffer_size() ? hex(code.text_section()->data(), code.text_section()->buffer_size()) : std::string("-");
+      std::string l(lg.data(), lg.data_size());
+      for (char& c : l) if (c == '\n') c = '$';
+      printf("KA %u %s %s\n", unsigned(e), bytes.c_str(), l.c_str());
+    }
+    else if (cmd == "KA6") {
+      // the AArch64 counterpart of KA: a64::Compiler + register allocator + a64::Assembler with a StringLogger
+      uint32_t ff, diag, k; in >> ff >> diag >> k;
+      CodeHolder code; code.init(Environment(Arch::kAArch64));
+      StringLogger lg; lg.set_flags(FormatFlags(ff));
+      code.set_logger(&lg);
+      a64::Compiler cc(&code);
+      cc.add_diagnostic_options(DiagnosticOptions(diag));
+      FuncNode* fn = cc.add_func(FuncSignature::build<int, int, int>(CallConvId::kCDecl));
+      a64::Gp a = cc.new_gp32("a"), b = cc.new_gp32("b"), u2 = cc.new_gp64(), p = cc.new_gp64("p");
+      a64::Vec u4 = cc.new_vec128(), x = cc.new_vec128("x");
+      (void)u2; (void)p; (void)u4; (void)x;
+      bool bad = !fn;
+      if (!bad) { fn->set_arg(0, a); fn->set_arg(1, b); }
+      Error e = Error::kOk;
+      for (uint32_t j = 0; j < k && !bad; j++) {
+        uint32_t id, opts, n; std::string mnem; in >> id >> mnem >> opts;
+        Operand_ ex; read_op(in, ex);
+        in >> n; Operand_ ops[6]; for (auto& o : ops) o = Operand();
+        if (n > 6) { bad = true; break; }
+        for (uint32_t i = 0; i < n && !bad; i++) if (!read_op(in, ops[i])) bad = true;
+        if (bad) break;
+        Operand_ ext[3] = { ops[3], ops[4], ops[5] };
+        Error e1 = cc._emit(id, ops[0], ops[1], ops[2], ext);
+        if (e1 != Error::kOk && e == Error::kOk) e = e1;
+      }
+      if (bad) { printf("KA6 <bad-command>\n"); continue; }
+      cc.ret(a);
+      cc.end_func();
+      Error e2 = cc.finalize();
+      if (e == Error::kOk) e = e2;
+      std::string bytes = code.text_section()->buffer_size() ? hex(code.text_section()->data(), code.text_section()->buffer_size()) : std::string("-");
+      std::string l(lg.data(), lg.data_size());
+      for (char& c : l) if (c == '\n') c = '$';
+      printf("KA6 %u %s %s\n", unsigned(e), bytes.c_str(), l.c_str());
+    }
     else if (cmd == "J") {
       uint32_t ff, nv; in >> ff >> nv;
       bool okt = check_vtable(CS, in, nv);
@@ -448,34 +624,82 @@ int main() {
       printf("W6 %s%s\n", e == Error::kOk ? "" : "<error>", sb.data());
     }
     else if (cmd == "Q" || cmd == "QI") {
-      static const TypeId tys[] = { TypeId::kVoid, TypeId::kInt32, TypeId::kUInt32, TypeId::kInt64, TypeId::kUInt64, TypeId::kFloat32, TypeId::kFloat64 };
+      static const TypeId tys[] = { TypeId::kVoid, TypeId::kInt32, TypeId::kUInt32, TypeId::kInt64, TypeId::kUInt64, TypeId::kFloat32, TypeId::kFloat64,
+                                    TypeId::kInt32x4, TypeId::kFloat64x2, TypeId::kFloat32x8, TypeId::kInt8, TypeId::kUInt16 };
+      const uint32_t NT = 12;
       uint32_t ff; in >> ff;
-      CodeHolder code; code.init(Environment(Arch::kX64));
-      x86::Compiler cc(&code);
       FormatOptions fo; fo.set_flags(FormatFlags(ff));
       String sb;
       if (cmd == "Q") {
-        uint32_t ret, nargs; in >> ret >> nargs;
-        FuncSignature sig(CallConvId::kX64SystemV);
-        sig.set_ret(tys[ret % 7]);
+        // Q ff conv ret nargs (type bind)* : conv 0 System V, 1 Win64, 2 vectorcall, 6 AArch64 (a64::Compiler)
+        uint32_t conv, ret, nargs; in >> conv >> ret >> nargs;
+        FuncSignature sig(conv == 0 ? CallConvId::kX64SystemV : conv == 1 ? CallConvId::kX64Windows : conv == 2 ? CallConvId::kVectorCall : CallConvId::kCDecl);
+        sig.set_ret(tys[ret % NT]);
         std::vector<std::string> binds;
         std::vector<uint32_t> at;
-        for (uint32_t i = 0; i < nargs; i++) { uint32_t ty; std::string b; in >> ty >> b; sig.add_arg(tys[ty % 7]); binds.push_back(b); at.push_back(ty % 7); }
-        FuncNode* fn = cc.add_func(sig);
-        if (!fn) { printf("Q <error>\n"); continue; }
-        for (uint32_t i = 0; i < nargs; i++) {
-          if (binds[i] == "-") continue;
-          std::string nm = "a" + std::to_string(i);
-          Reg r;
-          if (at[i] >= 5) r = binds[i] == "u" ? cc.new_xmm() : cc.new_xmm(nm.c_str());
-          else if (at[i] >= 3) r = binds[i] == "u" ? cc.new_gp64() : cc.new_gp64(nm.c_str());
-          else r = binds[i] == "u" ? cc.new_gp32() : cc.new_gp32(nm.c_str());
-          fn->set_arg(i, r);
+        for (uint32_t i = 0; i < nargs; i++) { uint32_t ty; std::string b; in >> ty >> b; sig.add_arg(tys[ty % NT]); binds.push_back(b); at.push_back(ty % NT); }
+        auto is_vec = [](uint32_t k) { return (k >= 5 && k <= 9); };
+        auto is64 = [](uint32_t k) { return k == 3 || k == 4; };
+        Error e = Error::kOk;
+        // what the FuncDetail says (the values the text has to denote): per value "T<typeid> (N | R type id | S offset) (d|i)"
+        std::string dump;
+        auto dump_value = [&](const FuncValue& v) {
+          dump += " T" + std::to_string(unsigned(v.type_id()));
+          if (!v.is_assigned()) { dump += " N"; return; }
+          if (v.is_reg()) dump += " R " + std::to_string(unsigned(v.reg_type())) + " " + std::to_string(unsigned(v.reg_id()));
+          if (v.is_stack()) dump += " S " + std::to_string(int(v.stack_offset()));
+          dump += v.is_indirect() ? " i" : " d";
+        };
+        auto dump_detail = [&](const FuncDetail& fd) {
+          uint32_t nr = 0; while (nr < Globals::kMaxValuePack && fd.ret_pack()[nr]) nr++;
+          dump += " RET " + std::to_string(nr);
+          for (uint32_t k = 0; k < nr; k++) dump_value(fd.ret_pack()[k]);
+          dump += " ARGS " + std::to_string(unsigned(fd.arg_count()));
+          for (uint32_t i = 0; i < fd.arg_count(); i++) {
+            uint32_t c = 0; while (c < Globals::kMaxValuePack && fd.arg_pack(i)[c]) c++;
+            dump += " P " + std::to_string(c);
+            for (uint32_t k = 0; k < c; k++) dump_value(fd.arg_pack(i)[k]);
+          }
+        };
+        if (conv == 6) {
+          CodeHolder code; code.init(Environment(Arch::kAArch64));
+          a64::Compiler cc(&code);
+          FuncNode* fn = cc.add_func(sig);
+          if (!fn) { printf("Q <error>\n"); continue; }
+          for (uint32_t i = 0; i < nargs; i++) {
+            if (binds[i] == "-") continue;
+            std::string nm = "a" + std::to_string(i);
+            Reg r;
+            if (is_vec(at[i])) r = binds[i] == "u" ? cc.new_vec128() : cc.new_vec128(nm.c_str());
+            else if (is64(at[i])) r = binds[i] == "u" ? cc.new_gp64() : cc.new_gp64(nm.c_str());
+            else r = binds[i] == "u" ? cc.new_gp32() : cc.new_gp32(nm.c_str());
+            fn->set_arg(i, r);
+          }
+          e = Formatter::format_node(sb, fo, &cc, fn);
+          dump_detail(fn->detail());
         }
-        Error e = Formatter::format_node(sb, fo, &cc, fn);
-        printf("Q %s%s\n", e == Error::kOk ? "" : "<error>", sb.data());
+        else {
+          CodeHolder code; code.init(Environment(Arch::kX64));
+          x86::Compiler cc(&code);
+          FuncNode* fn = cc.add_func(sig);
+          if (!fn) { printf("Q <error>\n"); continue; }
+          for (uint32_t i = 0; i < nargs; i++) {
+            if (binds[i] == "-") continue;
+            std::string nm = "a" + std::to_string(i);
+            Reg r;
+            if (is_vec(at[i])) r = binds[i] == "u" ? cc.new_xmm() : cc.new_xmm(nm.c_str());
+            else if (is64(at[i])) r = binds[i] == "u" ? cc.new_gp64() : cc.new_gp64(nm.c_str());
+            else r = binds[i] == "u" ? cc.new_gp32() : cc.new_gp32(nm.c_str());
+            fn->set_arg(i, r);
+          }
+          e = Formatter::format_node(sb, fo, &cc, fn);
+          dump_detail(fn->detail());
+        }
+        printf("Q %s%s ##%s\n", e == Error::kOk ? "" : "<error>", sb.data(), dump.c_str());
       }
       else {
+        CodeHolder code; code.init(Environment(Arch::kX64));
+        x86::Compiler cc(&code);
         FuncNode* fn = cc.add_func(FuncSignature::build<void>(CallConvId::kX64SystemV));
         x86::Gp v0 = cc.new_gp64(); x86::Gp v1 = cc.new_gp64("fnptr");
         Operand_ tgt; if (!fn || !read_op(in, tgt)) { printf("QI <bad-command>\n"); continue; }
